@@ -3,7 +3,7 @@
    Model: Model/InvCDF.v (dist.go:116-178, 197-209; alg.go:80-102).  F is ANY function Q -> Q
    (hypotheses are stated where they are needed); pwf is the executable family of piecewise
    cdfs (ramps, jumps, flat stretches) the correspondence check runs against the Go code. *)
-From MM Require Import Base.Num Model.Choose Model.Binom Model.Hyperg Model.InvCDF Proofs.InvCDF.
+From MM Require Import Base.Num Model.Choose Model.Binom Model.Hyperg Model.InvCDF Proofs.InvCDF Check.C07 Proofs.InvCDFCheck.
 Local Open Scope Q_scope.
 
 (* ----- bracket expansion by doubling from 0 (dist.go:146-167), WITH its float64 rounding -----
@@ -194,6 +194,44 @@ Theorem C07_rand_none_iff_all_zero : forall (R : Type) (inv : Q -> R) (src : lis
   rand_model inv src = None <-> (forall z, In z src -> z == 0).
 Proof. exact rand_none_iff_all_zero. Qed.
 Print Assumptions C07_rand_none_iff_all_zero.
+
+(* ----- what an ACCEPTED level of the comparator (Check/C07.v, piecewise distributions, ops 0 and 4) means,
+   in terms of the specification only: the observation is within the tolerance of THE LEAST x with
+   cdf x >= y, or the matching infinity exactly when that x is out of float64's reach; NaN out of range;
+   the end-point rule.  No model function (bracket, bisection, probes, pw_quantile) in the conclusion. ----- *)
+Theorem C07_check_pw_y_sound : forall pw bl bh y st obs tag, pw_wf pw -> 0 < y -> y < 1 ->
+  check_pw_y pw bl bh (XFin y) st obs = (tag, None) ->
+  st = 0%Z /\ exists q, least_ge (pw_cdf pw) y q /\
+    ((- inject_Z go_last_probe < q /\ q <= inject_Z go_last_probe /\
+      exists o, obs = XFin o /\ Qabs (o - q) <= tol_x pw y q /\ y - eps_level <= pw_cdf pw o)
+     \/ (inject_Z go_last_probe < q /\ obs = XInf false)
+     \/ (q <= - inject_Z go_last_probe /\ obs = XInf true)).
+Proof. exact check_pw_y_sound. Qed.
+Print Assumptions C07_check_pw_y_sound.
+
+Theorem C07_check_pw_y_sound_special : forall pw bl bh y st obs tag,
+  check_pw_y pw bl bh (XFin y) st obs = (tag, None) ->
+  ((y < 0 \/ 1 < y) -> st = 0%Z /\ obs = XNaN) /\
+  (y == 0 -> st = 0%Z /\ ((pw_cdf pw bl == 0 /\ exists o, obs = XFin o /\ o == bl) \/ (~ pw_cdf pw bl == 0 /\ obs = XInf true))) /\
+  (y == 1 -> st = 0%Z /\ ((pw_cdf pw bh == 1 /\ exists o, obs = XFin o /\ o == bh) \/ (~ pw_cdf pw bh == 1 /\ obs = XInf false))).
+Proof. exact check_pw_y_sound_special. Qed.
+Print Assumptions C07_check_pw_y_sound_special.
+
+(* the direct comparison of "non-decreasing in y": an accepted list of (index, level, result) is ordered *)
+Theorem C07_mono_check_sound : forall tol l, mono_check tol l = None ->
+  forall l1 i yi xi l2 j yj xj l3, l = l1 ++ (i, yi, xi) :: l2 ++ (j, yj, xj) :: l3 ->
+  (yi <= yj -> xr_leb tol xi xj = true) /\ (yj <= yi -> xr_leb tol xj xi = true).
+Proof. exact mono_check_sound. Qed.
+Print Assumptions C07_mono_check_sound.
+
+Example C07_check_example :
+  (* uniform on [0, 2]: level 1/4 answered by 1/2 is accepted, by 0.5000001 it is not; a point mass beyond the
+     last probe must be answered by +Inf *)
+  snd (check_pw_y [(0, 0, 0); (2, 1, 1)] 0 2 (XFin (1 # 4)) 0 (XFin (1 # 2))) = None /\
+  snd (check_pw_y [(0, 0, 0); (2, 1, 1)] 0 2 (XFin (1 # 4)) 0 (XFin (5000001 # 10000000))) <> None /\
+  snd (check_pw_y [(inject_Z (3 * 2 ^ 1022), 0, 1)] 0 0 (XFin (1 # 2)) 0 (XInf false)) = None /\
+  snd (check_pw_y [(inject_Z (3 * 2 ^ 1022), 0, 1)] 0 0 (XFin (1 # 2)) 0 (XFin (inject_Z (3 * 2 ^ 1022)))) <> None.
+Proof. vm_compute. repeat split; try reflexivity; discriminate. Qed.
 
 (* ----- non-vacuity ----- *)
 (* ramp from -1 to 0 reaching 1/4, jump to 1/2 at 0, flat until 2, ramp to 1 at 3 *)
